@@ -1,3 +1,342 @@
-import LcdbModel.Model.Conc
+/-
+  C08 -- linearizability of writes and reads.
+
+  `st.committed` is the sequential history (batch ids in commit order), `st.lastSeq` the published sequence (= number
+  of committed batches), `st.log` the real-time log of invocations `(tid, false, lastSeq)` and responses
+  `(tid, true, lastSeq)`. `[x, y] <+ l` (`List.Sublist`) says that `x` occurs before `y` in `l`.
+-/
+import LcdbModel.Lemmas.ConcHist
+import LcdbModel.Lemmas.ConcDemo
+
 namespace Lcdb.C08
+open Lcdb.Conc
+
+/-- 6. The published sequence is the length of the history ... -/
+theorem lastSeq_committed {ws : List Writer} {rs : List Reader} (hwf : WF ws rs) {st : St} (h : Reachable ws rs st) :
+    st.lastSeq = st.committed.length :=
+  (reachable_Inv hwf h).l.lastSeq_eq
+
+/-- ... and both only grow, the history by appending. -/
+theorem committed_grows {ws : List Writer} {rs : List Reader} (hwf : WF ws rs) {st st' : St} {l : Label}
+    (h : Reachable ws rs st) (hs : step st l = some st') :
+    ∃ ext, st'.committed = st.committed ++ ext ∧ st'.lastSeq = st.lastSeq + ext.length := by
+  have H := reachable_Inv hwf h
+  rcases step_history H.q hs with ⟨h1, h2, _, _⟩ | ⟨t, _, h1, h2, _⟩
+  · exact ⟨[], by simp [h1], by simp [h2]⟩
+  · refine ⟨_, h1, ?_⟩
+    rw [h2, batchesOf, length_batches _ (fun m hm => H.q.qmem m (H.q.pfx.subset hm))]
+
+/-- 7. Every batch is committed at most once, and exactly once iff its writer was (or is being) told so. -/
+theorem commit_once {ws : List Writer} {rs : List Reader} (hwf : WF ws rs) {st : St} (h : Reachable ws rs st) :
+    st.committed.Nodup ∧
+    (∀ b ∈ st.committed, ∃ w ∈ st.writers, w.batch = b) ∧
+    ∀ w ∈ st.writers,
+      (w.pc = .returned true → st.committed.count w.batch = 1) ∧
+      (w.pc = .returned false → st.committed.count w.batch = 0) ∧
+      ((∀ ok, w.pc ≠ .returned ok) → w.done = true → w.status = true → st.committed.count w.batch = 1) ∧
+      ((∀ ok, w.pc ≠ .returned ok) → (w.done = false ∨ w.status = false) → st.committed.count w.batch = 0) := by
+  have H := (reachable_Inv hwf h).l
+  refine ⟨?_, H.from_writer, ?_⟩
+  · rw [List.nodup_iff_count]
+    intro b
+    by_cases hb : b ∈ st.committed
+    · obtain ⟨w, hw, rfl⟩ := H.from_writer b hb
+      have := H.wc w hw
+      unfold WC at this; rw [this]; split <;> omega
+    · rw [List.count_eq_zero_of_not_mem hb]; omega
+  · intro w hw
+    have hc := H.wc w hw
+    unfold WC at hc
+    refine ⟨?_, ?_, ?_, ?_⟩
+    · intro hpc; rw [hc]; simp [wCommitted, hpc]
+    · intro hpc; rw [hc]; simp [wCommitted, hpc]
+    · intro hpc hd hs; rw [hc, wCommitted_eq, retOk_none_of hpc]; simp [hd, hs]
+    · intro hpc hds; rw [hc, wCommitted_eq, retOk_none_of hpc]
+      rcases hds with hd | hs
+      · simp [hd]
+      · simp [hs]
+
+/-- a writer's tid in the list of writer invocations -/
+theorem sublist_writerInvs {st : St} {a b : Writer} (ha : a ∈ st.writers) (hb : b ∈ st.writers)
+    (hord : [a.tid, b.tid].Sublist (invocations st.log)) : [a.tid, b.tid].Sublist (writerInvs st) := by
+  have := hord.filter (fun t => decide (t ∈ st.writers.map (·.tid)))
+  have ha' : ∃ x, x ∈ st.writers ∧ x.tid = a.tid := ⟨a, ha, rfl⟩
+  have hb' : ∃ x, x ∈ st.writers ∧ x.tid = b.tid := ⟨b, hb, rfl⟩
+  simpa [writerInvs, List.filter_cons, ha', hb'] using this
+
+/-- 8. FIFO: successfully committed batches appear in the history in the order in which their writers entered the
+    queue. -/
+theorem fifo_order {ws : List Writer} {rs : List Reader} (hwf : WF ws rs) {st : St} (h : Reachable ws rs st)
+    {a b : Writer} (ha : a ∈ st.writers) (hb : b ∈ st.writers)
+    (hca : wCommitted a = true) (hcb : wCommitted b = true)
+    (hord : [a.tid, b.tid].Sublist (invocations st.log)) :
+    [a.batch, b.batch].Sublist st.committed := by
+  have H := reachable_Inv hwf h
+  obtain ⟨removed, e1, e2, _⟩ := H.l.fifo
+  have h1 := sublist_writerInvs ha hb hord
+  rw [e1, List.sublist_append_iff] at h1
+  obtain ⟨l1, l2, e, s1, s2⟩ := h1
+  -- `b` is not on the queue any more
+  have hbq : b.tid ∉ st.queue := by
+    intro hm
+    have := H.q.queued hb (by simp) hm
+    rw [wCommitted_of_not_done this.1 (retOk_none_of this.2.2)] at hcb
+    cases hcb
+  have hl2 : l2 = [] := by
+    cases l2 with
+    | nil => rfl
+    | cons x l2 =>
+      exfalso
+      have hlast : b.tid ∈ x :: l2 := by
+        have : ([a.tid, b.tid] : List Tid).getLast? = (l1 ++ x :: l2).getLast? := by rw [e]
+        simp [List.getLast?_append] at this
+        have hx : (x :: l2).getLast? = some b.tid := by
+          cases hl : (x :: l2).getLast? with
+          | none => simp at hl
+          | some y => rw [hl] at this; simp at this; rw [this]
+        exact List.mem_of_getLast? hx
+      exact hbq (s2.subset hlast)
+  rw [hl2, List.append_nil] at e
+  subst e
+  have := s1.filterMap (commitBatch st)
+  rw [← e2] at this
+  have hga := getW_of_mem H.q.wnodup ha
+  have hgb := getW_of_mem H.q.wnodup hb
+  simpa [commitBatch, hga, hgb, hca, hcb] using this
+
+/-- an invocation precedes its response: from "`a`'s response precedes `e`" to "`a`'s invocation precedes `e`" -/
+theorem inv_before_of_resp_before {log : List Entry} {t : Tid} {s0 s1 x : Nat} {e : Entry}
+    (hent : entriesOf log t = [(t, false, s0), (t, true, s1)])
+    (hord : [(t, true, x), e].Sublist log) : [(t, false, s0), e].Sublist log := by
+  rw [List.cons_sublist_iff] at hord
+  obtain ⟨r1, r2, hlog, hm, hs⟩ := hord
+  rw [hlog, entriesOf_append] at hent
+  have hm' : ((t, true, x) : Entry) ∈ entriesOf r1 t := mem_entriesOf.2 ⟨hm, rfl⟩
+  have hinv : ((t, false, s0) : Entry) ∈ entriesOf r1 t := by
+    rcases List.append_eq_cons_iff.1 hent with ⟨h1, _⟩ | ⟨l', h1, h2⟩
+    · rw [h1] at hm'; cases hm'
+    · rw [h1]; simp
+  have hinv' : ((t, false, s0) : Entry) ∈ r1 := (mem_entriesOf.1 hinv).1
+  rw [hlog]
+  exact (List.singleton_sublist.2 hinv').append hs
+
+theorem invocations_pair {t1 t2 : Tid} {s1 s2 : Nat} {log : List Entry}
+    (h : [((t1, false, s1) : Entry), (t2, false, s2)].Sublist log) : [t1, t2].Sublist (invocations log) := by
+  have := (h.filter (fun e => !e.2.1)).map (·.1)
+  simpa [invocations] using this
+
+/-- 8'. Real-time order: if `a` returned (successfully) before `b` was invoked, `a`'s batch precedes `b`'s. -/
+theorem realtime_order {ws : List Writer} {rs : List Reader} (hwf : WF ws rs) {st : St} (h : Reachable ws rs st)
+    {a b : Writer} (ha : a ∈ st.writers) (hb : b ∈ st.writers)
+    (hra : a.pc = .returned true) (hcb : wCommitted b = true) {x y : Nat}
+    (hord : [((a.tid, true, x) : Entry), (b.tid, false, y)].Sublist st.log) :
+    [a.batch, b.batch].Sublist st.committed := by
+  have H := reachable_Inv hwf h
+  have hl := H.l.wlog' ha
+  simp only [WLog, hra, retOk] at hl
+  obtain ⟨s0, s1, hent, _⟩ := hl
+  have := inv_before_of_resp_before hent hord
+  exact fifo_order hwf h ha hb (by simp [wCommitted, hra]) hcb (invocations_pair this)
+
+/-- the sequence a reader captured -/
+def captured : RPc → Option Nat
+  | .idle => none
+  | .reading s => some s
+  | .releasing s => some s
+  | .returned s => some s
+
+/-- what a reader with captured sequence `s` reads: the first `s` batches of the history -/
+def view (st : St) (s : Nat) : List Nat := st.committed.take s
+
+/-- the log entries of a reader that has captured `s`: exactly one invocation, stamped `s` -/
+theorem reader_inv_entry {ws : List Writer} {rs : List Reader} (hwf : WF ws rs) {st : St} (h : Reachable ws rs st)
+    {r : Reader} (hr : r ∈ st.readers) {s : Nat} (hc : captured r.pc = some s) {y : Nat}
+    (hm : ((r.tid, false, y) : Entry) ∈ st.log) : y = s := by
+  have hrl := (reachable_Inv hwf h).l.rl r hr
+  have hm' : ((r.tid, false, y) : Entry) ∈ entriesOf st.log r.tid := mem_entriesOf.2 ⟨hm, rfl⟩
+  unfold RL at hrl
+  cases hpc : r.pc <;> simp only [hpc, captured] at hrl hc
+  · cases hc
+  · rw [hrl] at hm'; simp at hm'; rw [hm']; exact Option.some.inj hc
+  · rw [hrl] at hm'; simp at hm'; rw [hm']; exact Option.some.inj hc
+  · obtain ⟨s1, hrl⟩ := hrl
+    rw [hrl] at hm'; simp at hm'; rw [hm']; exact Option.some.inj hc
+
+theorem log_le_of_sublist {ws : List Writer} {rs : List Reader} (hwf : WF ws rs) {st : St} (h : Reachable ws rs st)
+    {e1 e2 : Entry} (hs : [e1, e2].Sublist st.log) : e1.2.2 ≤ e2.2.2 := by
+  have := (reachable_Inv hwf h).l.log_mono
+  have := List.Pairwise.sublist (hs.map (·.2.2)) this
+  simpa using this
+
+/-- 9. A reader's captured sequence is the published sequence at its invocation, which is at most the published
+    sequence at its response: what it reads, `view st s`, is the sequential state at a point inside its interval. -/
+theorem reader_linearizable {ws : List Writer} {rs : List Reader} (hwf : WF ws rs) {st : St} (h : Reachable ws rs st)
+    {r : Reader} (hr : r ∈ st.readers) {s : Nat} (hpc : r.pc = .returned s) :
+    ∃ s1, entriesOf st.log r.tid = [(r.tid, false, s), (r.tid, true, s1)] ∧ s ≤ s1 ∧ s1 ≤ st.lastSeq ∧
+      s1 ≤ st.committed.length ∧ view st s <+: view st s1 := by
+  have H := (reachable_Inv hwf h).l
+  have hrl := H.rl r hr
+  simp only [RL, hpc] at hrl
+  obtain ⟨s1, hent⟩ := hrl
+  have hsub : [((r.tid, false, s) : Entry), (r.tid, true, s1)].Sublist st.log := by
+    rw [← hent]; exact List.filter_sublist
+  have h1 : s ≤ s1 := log_le_of_sublist hwf h hsub
+  have h2 : s1 ≤ st.lastSeq := H.log_le (r.tid, true, s1) (hsub.subset (by simp))
+  exact ⟨s1, hent, h1, h2, by rw [← H.lastSeq_eq]; exact h2, List.take_prefix_take_left h1⟩
+
+/-- while the reader is still running its captured sequence is the one logged at its invocation, and not ahead of
+    the published one -/
+theorem reader_captured {ws : List Writer} {rs : List Reader} (hwf : WF ws rs) {st : St} (h : Reachable ws rs st)
+    {r : Reader} (hr : r ∈ st.readers) {s : Nat} (hc : captured r.pc = some s) :
+    ((r.tid, false, s) : Entry) ∈ st.log ∧ s ≤ st.lastSeq := by
+  have H := (reachable_Inv hwf h).l
+  have hrl := H.rl r hr
+  have : ((r.tid, false, s) : Entry) ∈ entriesOf st.log r.tid := by
+    unfold RL at hrl
+    cases hpc : r.pc <;> simp only [hpc, captured] at hrl hc
+    · cases hc
+    · rw [hrl, ← Option.some.inj hc]; simp
+    · rw [hrl, ← Option.some.inj hc]; simp
+    · obtain ⟨s1, hrl⟩ := hrl
+      rw [hrl, ← Option.some.inj hc]; simp
+  have hm := (mem_entriesOf.1 this).1
+  exact ⟨hm, H.log_le _ hm⟩
+
+/-- the step that captures: the invocation is logged with the published sequence, which is what the reader will use -/
+theorem rCapture_spec {st st' : St} {t : Tid} (hs : step st (.rCapture t) = some st') :
+    st'.log = st.log ++ [(t, false, st.lastSeq)] ∧ ∃ r ∈ st'.readers, r.tid = t ∧ r.pc = .reading st.lastSeq := by
+  obtain ⟨r, hg, _, _, rfl⟩ := step_rCapture hs
+  obtain ⟨hr, rfl⟩ := getR_some hg
+  refine ⟨rfl, { r with pc := .reading st.lastSeq }, ?_, rfl, rfl⟩
+  simp only [setR, List.mem_map]
+  exact ⟨r, hr, by simp⟩
+
+/-- 9'. Monotone reads: if `r1` returned before `r2` was invoked then `r2` reads a state at least as new. -/
+theorem reads_monotone {ws : List Writer} {rs : List Reader} (hwf : WF ws rs) {st : St} (h : Reachable ws rs st)
+    {r1 r2 : Reader} (h1 : r1 ∈ st.readers) (h2 : r2 ∈ st.readers) {s1 s2 : Nat}
+    (hp1 : r1.pc = .returned s1) (hp2 : captured r2.pc = some s2) {x y : Nat}
+    (hord : [((r1.tid, true, x) : Entry), (r2.tid, false, y)].Sublist st.log) :
+    s1 ≤ s2 ∧ view st s1 <+: view st s2 := by
+  obtain ⟨x1, hent, hle, _⟩ := reader_linearizable hwf h h1 hp1
+  have hx : x = x1 := by
+    have : ((r1.tid, true, x) : Entry) ∈ entriesOf st.log r1.tid := mem_entriesOf.2 ⟨hord.subset (by simp), rfl⟩
+    rw [hent] at this; simpa using this
+  have hy : y = s2 := reader_inv_entry hwf h h2 hp2 (hord.subset (by simp))
+  have hxy : x ≤ y := log_le_of_sublist hwf h hord
+  have : s1 ≤ s2 := by omega
+  exact ⟨this, List.take_prefix_take_left this⟩
+
+/-- 9''. Read your (and everybody's) acknowledged writes: a reader invoked after writer `a` returned successfully
+    sees `a`'s batch. -/
+theorem reader_sees_write {ws : List Writer} {rs : List Reader} (hwf : WF ws rs) {st : St} (h : Reachable ws rs st)
+    {a : Writer} {r : Reader} (ha : a ∈ st.writers) (hr : r ∈ st.readers)
+    (hra : a.pc = .returned true) {s : Nat} (hc : captured r.pc = some s) {x y : Nat}
+    (hord : [((a.tid, true, x) : Entry), (r.tid, false, y)].Sublist st.log) :
+    a.batch ∈ view st s := by
+  have H := (reachable_Inv hwf h).l
+  have hl := H.wlog' ha
+  simp only [WLog, hra, retOk] at hl
+  obtain ⟨s0, s1, hent, hb⟩ := hl
+  have hx : x = s1 := by
+    have : ((a.tid, true, x) : Entry) ∈ entriesOf st.log a.tid := mem_entriesOf.2 ⟨hord.subset (by simp), rfl⟩
+    rw [hent] at this; simpa using this
+  have hy : y = s := reader_inv_entry hwf h hr hc (hord.subset (by simp))
+  have hxy : x ≤ y := log_le_of_sublist hwf h hord
+  exact (List.take_prefix_take_left (l := st.committed) (by omega : s1 ≤ s)).subset (hb trivial)
+
+/-- 11. When every writer has returned (or never started) the history is exactly the batches of the writers that
+    returned success, in the order in which they entered the queue; in particular a permutation of those batches. -/
+theorem final_state {ws : List Writer} {rs : List Reader} (hwf : WF ws rs) {st : St} (h : Reachable ws rs st)
+    (hdone : ∀ w ∈ st.writers, w.pc = .idle ∨ ∃ ok, w.pc = .returned ok) :
+    st.queue = [] ∧
+    st.committed = (writerInvs st).filterMap (commitBatch st) ∧
+    st.committed.Perm ((st.writers.filter fun w => w.pc == .returned true).map (·.batch)) := by
+  have H := reachable_Inv hwf h
+  have hq : st.queue = [] := by
+    cases hq : st.queue with
+    | nil => rfl
+    | cons t q =>
+      obtain ⟨w, hw, hwt⟩ := H.q.qmem t (by rw [hq]; simp)
+      have := H.q.queued hw (by simp) (by rw [hwt, hq]; simp)
+      rcases hdone w hw with h1 | ⟨ok, h1⟩
+      · exact absurd h1 this.2.1
+      · exact absurd h1 (this.2.2 ok)
+  refine ⟨hq, ?_, ?_⟩
+  · obtain ⟨removed, e1, e2, _⟩ := H.l.fifo
+    rw [e1, hq, List.append_nil]; exact e2
+  · have hnd := (commit_once hwf h).1
+    have hnd2 : ((st.writers.filter fun w => w.pc == .returned true).map (·.batch)).Nodup :=
+      List.Nodup.sublist (List.filter_sublist.map _) H.l.batches
+    rw [List.perm_ext_iff_of_nodup hnd hnd2]
+    intro b
+    simp only [List.mem_map, List.mem_filter, beq_iff_eq]
+    constructor
+    · intro hb
+      obtain ⟨w, hw, rfl⟩ := H.l.from_writer b hb
+      refine ⟨w, ⟨hw, ?_⟩, rfl⟩
+      have hc := H.l.wc w hw
+      unfold WC at hc
+      have hpos : 0 < st.committed.count w.batch := List.count_pos_iff.2 hb
+      rcases hdone w hw with h1 | ⟨ok, h1⟩
+      · have hdn := (H.q.idle_facts hw h1).1
+        rw [hc, wCommitted_of_not_done hdn (by simp [h1, retOk])] at hpos; simp at hpos
+      · cases ok
+        · rw [hc] at hpos; simp [wCommitted, h1] at hpos
+        · exact h1
+    · rintro ⟨w, ⟨hw, hpc⟩, rfl⟩
+      have hc := H.l.wc w hw
+      unfold WC at hc
+      apply List.count_pos_iff.1
+      rw [hc]; simp [wCommitted, hpc]
+
+/-- 12. A sync writer is never acknowledged by a leader that did not sync: in every `wCommit` of a non-sync leader no
+    member of the group is a sync writer. -/
+theorem sync_not_in_nonsync_group {ws : List Writer} {rs : List Reader} (hwf : WF ws rs) {st st' : St}
+    (h : Reachable ws rs st) {t : Tid} {sf : Bool} (hs : step st (.wCommit t sf) = some st') :
+    ∃ w, getW st t = some w ∧ st.inflight.head? = some t ∧
+      (w.sync = false → ∀ m ∈ st.inflight, ∀ x, getW st m = some x → x.sync = false) := by
+  have H := reachable_Inv hwf h
+  obtain ⟨w, hg, _, hi, _⟩ := step_wCommit hs
+  refine ⟨w, hg, hi, ?_⟩
+  intro hws m hm x hx
+  obtain ⟨hw, hwt⟩ := getW_some hg
+  obtain ⟨hx', hxt⟩ := getW_some hx
+  have := H.s t hi (by simp only [syncTable, List.mem_map]; exact ⟨w, hw, by simp [hwt, hws]⟩) m hm
+  cases hxs : x.sync with
+  | false => rfl
+  | true => exact absurd (by simp only [syncTable, List.mem_map]; exact ⟨x, hx', by simp [hxt, hxs]⟩) this
+
+/-! ### non-vacuity (the run of `Lcdb.Conc.Demo`) -/
+
+section Examples
+open Lcdb.Conc.Demo
+
+example : st3.lastSeq = st3.committed.length := lastSeq_committed wf reach3
+example : st3.committed.Nodup := (commit_once wf reach3).1
+-- writers 1, 2, 3 entered in this order and all committed, 3 as a follower of 2
+example : [10, 30].Sublist st3.committed :=
+  fifo_order wf reach3 (a := st3.writers[0]'(by decide)) (b := st3.writers[2]'(by decide)) (by decide) (by decide)
+    (by decide) (by decide) (by decide)
+-- writer 1 returned (log entry 4) before ... readers: reader 11 captured 0 and returned before reader 12 was not
+-- invoked; reader 12 was invoked after writer 1 returned and sees batch 10
+example : (10 : Nat) ∈ view st3 1 :=
+  reader_sees_write wf reach3 (a := st3.writers[0]'(by decide)) (r := st3.readers[1]'(by decide)) (by decide) (by decide)
+    (by decide) (s := 1) (by decide) (x := 1) (y := 1) (by decide)
+example : ∃ s1, entriesOf st3.log 12 = [(12, false, 1), (12, true, s1)] ∧ 1 ≤ s1 ∧ s1 ≤ st3.lastSeq ∧
+    s1 ≤ st3.committed.length ∧ view st3 1 <+: view st3 s1 :=
+  reader_linearizable wf reach3 (r := st3.readers[1]'(by decide)) (by decide) (s := 1) (by decide)
+example : st3.committed.Perm [10, 20, 30] :=
+  (final_state wf reach3 (by decide)).2.2
+-- in the sequential run writer 1 returned before writer 2 was invoked, reader 11 before reader 12
+example : [10, 20].Sublist st'.committed :=
+  realtime_order wf' reach' (a := st'.writers[0]'(by decide)) (b := st'.writers[1]'(by decide)) (by decide) (by decide)
+    (by decide) (by decide) (x := 1) (y := 1) (by decide)
+example : 1 ≤ 2 ∧ view st' 1 <+: view st' 2 :=
+  reads_monotone wf' reach' (r1 := st'.readers[0]'(by decide)) (r2 := st'.readers[1]'(by decide)) (by decide) (by decide)
+    (s1 := 1) (s2 := 2) (by decide) (by decide) (x := 1) (y := 2) (by decide)
+-- the group commit of the sync leader 2 with the non-sync follower 3 (the next label after `st2`)
+example : ∃ st', step st2 (.wCommit 2 false) = some st' := ⟨_, rfl⟩
+
+end Examples
+
 end Lcdb.C08
